@@ -6,7 +6,7 @@ import (
 	"os"
 	"strconv"
 
-	_ "vharness/internal/checks"
+	"vharness/internal/checks"
 	"vharness/internal/core"
 )
 
@@ -49,6 +49,8 @@ func main() {
 			usage()
 		}
 		os.Exit(core.ReplayMain(os.Args[2]))
+	case "selftest":
+		os.Exit(checks.SelftestMain())
 	case "list":
 		for _, id := range core.IDs() {
 			fmt.Println(id)
